@@ -86,6 +86,11 @@ func belongs(o *Obligation, ct *Contract, prop string) bool {
 		}
 		return has(fp, prop)
 	}
+	if prop == "C08" && ct != nil && has(ct.Props, "C08") {
+		// the round-trip lemmas are proved from the serialiser's and the decoder's contracts: every
+		// clause of a function that lists C08 is part of what C08 rests on
+		return true
+	}
 	return has(o.Props, prop)
 }
 
